@@ -7,6 +7,7 @@ import (
 	"fmt"
 	"go/types"
 	"math/big"
+	"os"
 	"strings"
 
 	"golang.org/x/tools/go/ssa"
@@ -126,9 +127,126 @@ func init() {
 			}
 			return x.ts.UF(a[0].(string), SBV, 64, args...)
 		},
-		"vTier":     func(x *Exec, fn *ssa.Function, a []Value) Value { return x.ts.BV(uint64(x.eng.Tier), 64) },
+		"vTier": func(x *Exec, fn *ssa.Function, a []Value) Value { return x.ts.BV(uint64(x.eng.Tier), 64) },
+		// vCutLoop(fn, loopIndex, hook): call hook(arrival) every time control reaches the header of the loopIndex-th
+		// outermost loop of function fn (cut point: the hook checks the stage lemma and havocs the state)
+		"vCutLoop": func(x *Exec, fn *ssa.Function, a []Value) Value {
+			if x.cuts == nil {
+				x.cuts = map[string]*cutSpec{}
+			}
+			x.cuts[a[0].(string)] = &cutSpec{loop: x.constInt(a[1], "loop index"), hook: a[2]}
+			return nil
+		},
+		"vUncut": func(x *Exec, fn *ssa.Function, a []Value) Value {
+			delete(x.cuts, a[0].(string))
+			return nil
+		},
+		// vLemma: engine-only obligation (stage lemma at a cut point)
+		"vLemma": func(x *Exec, fn *ssa.Function, a []Value) Value {
+			x.addObligation(&Obligation{ID: a[1].(string), Kind: "lemma", Cond: x.term(a[0])})
+			return nil
+		},
+		// vProves(c): does c hold for all values on the current path?  (immediate solver query; used to search the
+		// tightest invariant, never to decide a property by itself)
+		"vProves": func(x *Exec, fn *ssa.Function, a []Value) Value {
+			c := x.term(a[0])
+			if c.IsConst() {
+				return c
+			}
+			return x.ts.Bool(x.provesNow(c))
+		},
+		// vLinearProbe(y, xs, q): concrete coefficients (y[xs:=e_i] - y[xs:=0]) mod q, last entry = y[xs:=0] mod q
+		"vLinearProbe": func(x *Exec, fn *ssa.Function, a []Value) Value {
+			y := x.term(a[0])
+			xs := a[1].(Slice)
+			q := x.term(a[2])
+			if !q.IsConst() {
+				panic(x.errf("vLinearProbe: symbolic modulus"))
+			}
+			bq := q.ConstBig()
+			vars := make([]*Term, xs.Len)
+			for i := range vars {
+				vars[i] = x.term(xs.Obj.Cells[xs.Off+i])
+			}
+			// variables that occur in y (transitively through the real definitions of contract-stub values)
+			occ := map[*Term]bool{}
+			seen := map[*Term]bool{}
+			termVars(y, seen, occ)
+			for i := len(x.stubOrder) - 1; i >= 0; i-- {
+				if sv := x.stubOrder[i]; occ[sv] {
+					termVars(x.stubReal[sv], seen, occ)
+				}
+			}
+			eval := func(one int) *big.Int {
+				env := map[*Term]*Term{}
+				for i, v := range vars {
+					if v.Op != OVar {
+						continue
+					}
+					if i == one {
+						env[v] = x.ts.BV(1, v.W)
+					} else {
+						env[v] = x.ts.BV(0, v.W)
+					}
+				}
+				memo := map[*Term]*Term{}
+				for _, sv := range x.stubOrder {
+					if occ[sv] {
+						env[sv] = x.ts.Subst(x.stubReal[sv], env, memo)
+					}
+				}
+				r := x.ts.Subst(y, env, memo)
+				if !r.IsConst() {
+					panic(x.errf("vLinearProbe: value depends on something other than the probed variables: %v", r))
+				}
+				return new(big.Int).Mod(r.ConstBig(), bq)
+			}
+			zero := eval(-1)
+			out := x.makeSlice(types.Typ[types.Uint64], len(vars)+1, len(vars)+1, "probe")
+			for i, v := range vars {
+				c := new(big.Int)
+				if occ[v] {
+					c.Sub(eval(i), zero)
+					c.Mod(c, bq)
+				}
+				out.Obj.Cells[i] = x.ts.BV(c.Uint64(), 64)
+			}
+			out.Obj.Cells[len(vars)] = x.ts.BV(zero.Uint64(), 64)
+			return out
+		},
+		// vUpperBound(x): a sound upper bound of x on the current path from the INT back end's interval analysis
+		// (used only to pick candidate invariants; the invariant itself is then proved by the solver)
+		"vUpperBound": func(x *Exec, fn *ssa.Function, a []Value) Value {
+			t := x.term(a[0])
+			if t.IsConst() {
+				return t
+			}
+			l := NewLowerer(BackendINT, x.ts)
+			l.CoefReduce, l.LinIte = true, true
+			l.AddFacts(x.pathCond())
+			l.T(t)
+			_, hi := l.iv(t)
+			if !l.hasIv(t) || l.Err != nil {
+				hi = maxOfW(t.W)
+			}
+			return x.ts.BVBig(hi, 64)
+		},
+		"vAllLE": func(x *Exec, fn *ssa.Function, a []Value) Value {
+			xs := a[0].(Slice)
+			b := x.term(a[1])
+			r := x.ts.True
+			for i := 0; i < xs.Len; i++ {
+				r = x.ts.And(r, x.ts.Cmp(OUle, x.term(xs.Obj.Cells[xs.Off+i]), b))
+			}
+			return r
+		},
 		"vSymbolic": func(x *Exec, fn *ssa.Function, a []Value) Value { return x.ts.True },
-		"vLog":      func(x *Exec, fn *ssa.Function, a []Value) Value { return nil },
+		"vLog": func(x *Exec, fn *ssa.Function, a []Value) Value {
+			if os.Getenv("VERIF_LOG") != "" {
+				fmt.Println("[vLog]", a[0].(string))
+			}
+			return nil
+		},
 	}
 	registerFEPrelude()
 }
@@ -212,3 +330,50 @@ func (x *Exec) applyStub(kind string, fn *ssa.Function, args []Value) Value {
 }
 
 var contractStubs = map[string]intrinsic{}
+
+func init() {
+	// MRedLazy(x, y, q, qinv) with concrete y < q and odd q:  r ≡ x·(y·2^-64) (mod q),  0 < r < 2q.
+	// Discharged for every 64-bit x by the C01 kernel harness (2^64·r ≡ x·y and the range); cancelling the radix
+	// 2^64 (q odd) is the one arithmetic lemma used.
+	contractStubs["contract:mredlazy"] = func(x *Exec, fn *ssa.Function, a []Value) Value {
+		v, y, q := x.term(a[0]), x.term(a[1]), x.term(a[2])
+		if !y.IsConst() || !q.IsConst() {
+			panic(x.errf("contract:mredlazy needs concrete twiddle and modulus"))
+		}
+		if y.C >= q.C || q.C&1 == 0 {
+			panic(&GoPanic{Msg: "VERIF-CONTRACT: MRedLazy called with twiddle >= q or even q", Stack: x.stackTrace()})
+		}
+		if v.IsConst() {
+			return nil2term(x, fn, a)
+		}
+		bq := new(big.Int).SetUint64(q.C)
+		rinv := new(big.Int).ModInverse(pow2(64), bq)
+		c := new(big.Int).Mul(new(big.Int).SetUint64(y.C), rinv)
+		c.Mod(c, bq)
+		ts := x.ts
+		r := ts.Var("mrl", SBV, 64)
+		k := ts.Var("mrk", SInt, 0)
+		lhs := ts.BV2Int(r, false)
+		rhs := ts.IBin(OISub, ts.IBin(OIMul, ts.BV2Int(v, false), ts.Int(c)), ts.IBin(OIMul, k, ts.Int(bq)))
+		x.path = append(x.path, ts.Cmp(OEq, lhs, rhs))
+		x.addPath(ts.Cmp(OUlt, ts.BV(0, 64), r))
+		x.addPath(ts.Cmp(OUlt, r, ts.BV(2*q.C, 64)))
+		// remember the real computation for concrete evaluation (vLinearProbe)
+		if real, ok := nil2term(x, fn, a).(*Term); ok {
+			if x.stubReal == nil {
+				x.stubReal = map[*Term]*Term{}
+			}
+			x.stubReal[r] = real
+			x.stubOrder = append(x.stubOrder, r)
+		}
+		return r
+	}
+}
+
+// nil2term runs the real function (used when a contract stub sees fully concrete arguments).
+func nil2term(x *Exec, fn *ssa.Function, a []Value) Value {
+	saved := x.stubs
+	x.stubs = map[string]string{}
+	defer func() { x.stubs = saved }()
+	return x.call(fn, a, nil)
+}
